@@ -9,6 +9,7 @@ Import ListNotations.
 Local Open Scope string_scope.
 
 Definition expected_pins_C03 : list (string * string) := [
+  ("kernel/mem_util.go:Memset", "f8b1d2241d553612");
   ("kernel/mm/pmm/bitmap_allocator.go:<declarations>", "ff9f50b765daf4f4");
   ("kernel/mm/pmm/bitmap_allocator.go:BitmapAllocator.AllocFrame", "1cb89e109749503d");
   ("kernel/mm/pmm/bitmap_allocator.go:BitmapAllocator.FreeFrame", "eaf337b4aa77bc3c");
